@@ -146,6 +146,21 @@ def run(ctx):
     minus = [e for e in st if e.value == T.num(-1)]
     keep = [e for e in st if e.value != T.num(-1)]
     if not minus or not keep:
+        # a vectorised re-insertion: numpy.insert(xres, positions, -1) interprets `positions` relative to the array BEFORE insertion
+        xp = T.sym(f2.params[1]) if len(f2.params) > 1 else T.sym("xres")
+        ins = [x for r in s2.returns for x in T.subterms(r[1]) if x[0] == "call" and x[1] == "numpy.insert" and len(x[2]) == 3 and x[2][0] == xp and x[2][2] == T.num(-1)]
+        for x in ins:
+            pos = x[2][1]
+            full_positions = any(y[0] == "map" and y[3][0] == "call" and y[3][1] == "enumerate" and y[1] == T.idx(y[2], T.num(0)) for y in T.subterms(pos)) \
+                and not any(y[0] == "poly" for y in T.subterms(pos))
+            if full_positions:
+                ctx.violation("ALIGN", f"{f2.qualname} / ALIGN / -1 at the interface's own position", ctx.where(f2),
+                              "numpy.insert(xres, positions, -1) is given the positions of the excluded interfaces in the FULL list, but numpy.insert "
+                              "interprets indices relative to the restricted array: with two or more excluded interfaces every -1 after the first "
+                              "lands too late and the values in between shift onto the wrong interfaces")
+                return_after = True
+        if ins and any(r.status == "violation" for r in ctx.results):
+            raise AnalysisError("get_solution_no_discarded: re-insertion rewritten with numpy.insert; remaining clauses of this function not analysed")
         raise AnalysisError("get_solution_no_discarded: cannot find the -1 store and the copy store - re-bind the anchor")
     xparam = T.sym(f2.params[1]) if len(f2.params) > 1 else T.sym("xres")
     for e in minus:
